@@ -5,6 +5,7 @@ import os
 from concurrent.futures import ThreadPoolExecutor
 
 import common
+import sets
 import trace
 from common import CheckError
 
@@ -14,6 +15,8 @@ SPECDIR = os.path.join(common.SPEC, "dataset")
 
 def run(rep, tier):
     work = common.workdir("C08")
+    # the sample-selection bookkeeping underneath (cluster_t / testing marks): SampleSets.tla, every edge replayed on the real objects
+    sets.run(rep, "C08", tier)
     r = common.tlc("DatasetModel", "DatasetModel.cfg", SPECDIR, workers=8, timeout=900)
     rep.add_tlc(r, "DatasetModel.tla (all drop/undrop/shuffle/unshuffle histories, 3 features x 3 samples, all permutations)")
     if not r.ok:
